@@ -13,6 +13,8 @@ import subprocess
 import sys
 import tempfile
 import time
+import functools
+print = functools.partial(print, flush=True)
 
 SEEDED = "/verif/seeded"
 NEEDS = {
@@ -44,6 +46,39 @@ NEEDS = {
     "C06-maxcor-trim-order": "restart with maxcor smaller than the number of stored pairs",
     "C06-lnsrch-reboot-keeps-pair": "line-search failure mid-run and a split exactly at that iteration",
     "C06-restore-inplace-cumsum": "the same result object used as checkpoint twice",
+    "C13-filter-anchor-on-neighbour": "a rewrite where a middle point is dropped: (P2,P3) invalid, (P1,P2) valid, (P1,P3) invalid",
+    "C13-roll-full-memory-matrices": "objective switch at iteration k > maxcor with a rewrite that keeps all pairs",
+    "C13-skip-filter-when-same-arrays": "update function rewriting the stored gradients in place and returning the same deque",
+    "C17-ftarget-hoisted-unscale": "gradient scaler with s != 1 together with an ftarget that is the stop that fires",
+    "C17-unit-scale-grad-fastpath": "jac callable that writes into and returns the same reused buffer on every call",
+    "C17-scaler-skipped-stationary-start": "scaler + start whose unscaled projected gradient is already within gtol",
+    "C02-accepted-step-unprojected": "step truncated at a non-dyadic bound reached from a distance (one-ulp rounding)",
+    "C02-fd-fixed-variable-free-stencil": "finite-difference gradient mode together with a fixed variable (lb == ub)",
+    "C02-report-in-x0-dtype": "float32 x0 with bounds not representable in float32 and a variable finishing on such a bound",
+    "C18-wolfe-filter-vectorized": "update function rewriting gradients so that a mid-memory pair fails and the spanning pair has s.y <= 0",
+    "C18-deque-maxlen-lost-on-reboot": "one line-search failure with more than one point in memory, then > maxcor accepted updates",
+    "C18-diag-skip-unmoved-isclose": "operator whose retained pairs all have |s_k[i]| <= 1e-8 (not zero) for some variable",
+    "C08-cauchy-iter0-skips-memory": "non-empty memory together with iter == 0 (direct call, or restart with checkpoint.nit reset to 0)",
+    "C08-cauchy-clamp-not-applied-to-c": "memory present, minimiser exactly on a breakpoint, a free variable remains (~1% of inputs)",
+    "C08-cauchy-unique-drops-tied-breakpoints": "exact floating-point ties between breakpoints with the minimiser beyond the tie",
+    "C09-freev-kept-first-order": "iteration > 0 with a previous free set and an entering variable of lower index than a staying one",
+    "C09-lk-reuse-skipped-update": ">= 1 pair in memory, a skipped update, then a different free set (module-level cache)",
+    "C09-subsm-bound-type-codes": "one-sided box with a step that must be truncated by the single finite bound",
+    "C19-ackley-memo-holds-caller-array": "evaluate at x, update x in place, evaluate again on the same array object",
+    "C19-griewank-grad-zero-cos-guard": "a coordinate exactly on a zero of cos(x_i/sqrt(i)) (hyperplanes inside [-5,5])",
+    "C19-squeeze-input-drops-1d-axis": "dimension n = 1 (gradient returned with shape () instead of (1,))",
+    "C11-ls-best-trial-shadowed-f0": ">= 2 trials, every trial uphill w.r.t. the start, termination by warning / cap exhaustion",
+    "C11-ls-memo-sync-extra-eval": "cap exhausted with a non-monotone trial sequence (visible only by counting calls inside line_search)",
+    "C11-ls-skip-projection-not-boxed": "box with at least one infinite and one finite bound; a trial landing on the finite bound with unlucky rounding",
+    "C16-fd-bounds-only-when-boxed": "partly bounded box and an iterate on a finite bound on the side the stencil points to",
+    "C16-unit-step-reuses-xbar": "subspace step truncated by a bound that rounds outward + unit step + any FD mode (two sites)",
+    "C16-fd-pinned-variable-isclose-zero-grad": "a side narrower than 1e-5 relative / 1e-8 absolute with a real slope along it",
+    "C12-ftol-linesearch-doc-default": "a line-search trial whose decrease falls between 1e-4 and 1e-3 of the linear prediction",
+    "C12-curvature-abs-floor": "steps short enough that s.y < 1e-8 while |g| is still well above gtol",
+    "C12-unconstrained-shortcut-unscaled-hessinv": "fully unbounded problem with n >= 2 and at least one stored pair",
+    "C01-lnsrch-restart-task-never-cleared": "line-search failure, reboot, >= 1 successful iteration, then another failure far from the solution",
+    "C01-freeset-selectors-reused-on-equal-count": "between two iterations one variable reaches a bound while another leaves one (same count)",
+    "C01-cauchy-unbounded-breakpoints-dropped": "a variable on a one-sided bound with the gradient pushing inward and no finite breakpoint",
 }
 
 
